@@ -122,3 +122,16 @@ Theorem C12_whole_run_clock : forall (e : Env (F:=R)) pts fmax n x x',
   ((1 <= n)%nat -> k_offset_back k' = k_offset k' - p_length (ts_p (sl_st (fst x')))) /\
   ts_p (sl_st (fst x')) = ts_p (sl_st (fst x)).
 Proof. exact sl_full_run_clock. Qed.
+
+(* (imported here, after the statements above, because PathGeom's field names shadow TrainStep's link pointers) *)
+From AltModel Require Import SpeedPoints PathGeom TrainEnergy WholeSim.
+From AltProofs Require Import SpeedPointsP PathGeomP WholeSplitP TimedTraceP.
+
+(* ---- the simulation of a DISPATCHED train (walk_timed_path; proofs/TimedTraceP.v): EVERY step obeys the kinematic
+   bookkeeping law on the path in force at that moment, the counter advances by one per step, and neither the step size
+   nor the train's parameters ever change - across all path extensions ---- *)
+Theorem C12_dispatched_train : forall fuel_bp fuel_steps (net : list LinkR) (tp : TPR) tl rp fmax fb st cache (con : ConsistR) x',
+  sl_timed_walk fuel_bp fuel_steps net tp tl rp fmax fb st cache con = Ok x' ->
+  tw_trace fmax kin_step ({| sl_st := st; sl_cache := cache; sl_fb := fb; sl_idx := 0 |}, con) x' /\
+  k_dt (ts_k (sl_st (fst x'))) = k_dt (ts_k st) /\ ts_p (sl_st (fst x')) = ts_p st.
+Proof. exact sl_timed_walk_kin. Qed.
